@@ -1,7 +1,14 @@
 ---------------------------- MODULE Gen_IOStreams ----------------------------
-(* Behaviour export for IOStreams.  Three families (CONSTANT Family):        *)
+(* Behaviour export for IOStreams.  Four families (CONSTANT Family):         *)
 (*  "sandbox"  (C12) every single I/O action (names written literally and     *)
-(*             computed at run time), every pair of actions, and every triple *)
+(*             computed at run time; the regular files also under the three   *)
+(*             other spellings of their path; /dev/null; command lines that   *)
+(*             are empty, blank, or start with blanks in all three forms;     *)
+(*             operands that are a directory, a missing file, the empty       *)
+(*             string, an assignment), every pair of actions of the older     *)
+(*             menu, the pairs of an older action and one of NewPair (a       *)
+(*             representative of each newer dimension) in both orders, every  *)
+(*             operand after an operand that is not a file, and every triple  *)
 (*             X(n); close(n); Y(n) on one name, under the 8 flag sets, with  *)
 (*             and without a custom open-file function; and (Runs >= 2)       *)
 (*             SESSIONS: Runs Execute calls on one Interpreter, a short first *)
@@ -15,7 +22,16 @@
 (*             print with two arguments), in default, CSV and TSV output mode,*)
 (*             with the writer failing at every byte offset (and never: the   *)
 (*             control in which everything must arrive), the writer being     *)
-(*             plain or a buffered writer of 3, 16 or 4096 bytes.             *)
+(*             plain or a buffered writer of 3, 16 or 4096 bytes;             *)
+(*  "newline"  (C13) the newline output modes raw, crlf and smart x print and *)
+(*             printf of every payload shape (plain; ending with a newline;   *)
+(*             an interior newline with and without a final one; CR LF inside)*)
+(*             to standard output, "-", /dev/stdout, /dev/stderr, a file (>   *)
+(*             and >>), `cat` and "  cat": every single action with every     *)
+(*             ending, and (Depth >= 2) every pair of such actions on ONE     *)
+(*             destination, or one followed by close / fflush (Rich < 2:      *)
+(*             pairs in raw and crlf mode only, the second payload one of     *)
+(*             plain / mid / crlf).                                           *)
 (* One JSON line per finished run: configuration, actions, Prediction(st);    *)
 (* for a session: fam = "session", runs = one such record per Execute.        *)
 EXTENDS IOStreams, Json
@@ -26,11 +42,12 @@ GFiles == {"f1", "f2"}
 Act(op, name, cls) == [op |-> op, name |-> name, cls |-> cls]
 Pr(dest, name, mode, form, cls) == [op |-> "print", dest |-> dest, name |-> name, mode |-> mode, form |-> form, cls |-> cls]
 
-SandboxCfgs == {[ne |-> a, nw |-> b, nr |-> c, custom |-> d, failAt |-> 0 - 1, wkind |-> "plain", omode |-> "default",
+SandboxCfgs == {[ne |-> a, nw |-> b, nr |-> c, custom |-> d, failAt |-> 0 - 1, wkind |-> "plain", omode |-> "default", nlmode |-> "smart",
                   stdin |-> << <<c_s>> >>, pre |-> {"f1"}] :
                   a \in BOOLEAN, b \in BOOLEAN, c \in BOOLEAN, d \in BOOLEAN}
-DeliveryCfg == [ne |-> FALSE, nw |-> FALSE, nr |-> FALSE, custom |-> TRUE, failAt |-> 0 - 1, wkind |-> "plain", omode |-> "default",
+DeliveryCfg == [ne |-> FALSE, nw |-> FALSE, nr |-> FALSE, custom |-> TRUE, failAt |-> 0 - 1, wkind |-> "plain", omode |-> "default", nlmode |-> "smart",
                 stdin |-> <<>>, pre |-> {"f1"}]
+NewlineCfgs == {[DeliveryCfg EXCEPT !.nlmode = nl] : nl \in NLModes}
 \* a failure at every byte offset (a history of Depth actions writes at most 4 * Depth bytes), and never (-1)
 \* Rich = 1 leaves out the combinations that add least: the 16-byte writer in default mode, and in TSV mode
 \* (which differs from CSV mode in the separator only) the 3-byte and the 4096-byte writer.  Rich = 0 (used for
@@ -42,6 +59,15 @@ WriterModes == {wm \in WKinds \X OModes :
 FailureCfgs == {[DeliveryCfg EXCEPT !.failAt = k, !.wkind = wm[1], !.omode = wm[2]] : k \in (0 - 1)..(4 * Depth), wm \in WriterModes}
 
 SandboxMenu(classes) == Menu(GFiles, classes, {"print"})
+\* every action of the newer dimensions (used on its own)
+NewSingles == {a \in Menu(GFiles \cup NullFiles, {"lit", "computed"} \cup PathClasses, {"print"}) \cup SandboxExtra({"lit", "computed"}) :
+                 a \notin SandboxMenu({"lit", "computed"}) /\ (a.cls \in PathClasses => IsIO(a))}
+\* one representative of each newer dimension (used in pairs with the older menu, and in the later runs of sessions)
+NewPair == { Pr("file", "/dev/null", "trunc", "print", "lit"), Act("getline_file", "/dev/null", "lit"), Act("getline_file", "f1", "devdd"),
+             Pr("file", "f2", "append", "print", "devdd"), Act("system", "blank", "lit"), Act("operand", "d1", "lit"), Act("operand", "", "lit") }
+\* the newline family: shaped print / printf to every kind of destination
+NewlineMenu == {a \in ShapedPrints({"f1"}, Shapes) : ~(a.dest = "file" /\ a.name \in StdNames /\ a.mode = "append") /\ a.name # "cat3"}
+SameDest(a, b) == a.dest = b.dest /\ a.name = b.name
 \* Rich = 0: the core actions (used for the deepest histories), 1: the standard menu, 2: + printf forms, cat3 readers
 CoreMenu ==
   { Pr("stdout", "", "none", "print", "lit"), Pr("file", "f1", "trunc", "print", "lit"), Pr("file", "f1", "append", "print", "lit"),
@@ -73,7 +99,8 @@ FailureMenu ==
 VARIABLES st, cfg, h, prev
 vars == <<st, cfg, h, prev>>
 
-Init == /\ cfg \in (CASE Family = "sandbox" -> SandboxCfgs [] Family = "delivery" -> {DeliveryCfg} [] Family = "failure" -> FailureCfgs)
+Init == /\ cfg \in (CASE Family = "sandbox" -> SandboxCfgs [] Family = "delivery" -> {DeliveryCfg} [] Family = "failure" -> FailureCfgs
+                        [] Family = "newline" -> NewlineCfgs)
         /\ st = InitState(cfg)
         /\ h = <<>>
         /\ prev = <<>>
@@ -87,7 +114,7 @@ IsPrintf(a) == a.op = "print" /\ a.form = "printf"
 Cheap(S) == IF cfg.ne \/ Rich = 2 THEN S ELSE {a \in S : ~IsExec(a)}
 \* ---- sessions (family "sandbox", Runs >= 2)
 CfgOut(c) == [ne |-> c.ne, nw |-> c.nw, nr |-> c.nr, custom |-> c.custom, failAt |-> c.failAt,
-              wkind |-> c.wkind, omode |-> c.omode, stdin |-> c.stdin, pre |-> c.pre]
+              wkind |-> c.wkind, omode |-> c.omode, nlmode |-> c.nlmode, stdin |-> c.stdin, pre |-> c.pre]
 Bits(c) == <<c.ne, c.nw, c.nr, c.custom>>
 NDiff(a, b) == Cardinality({k \in 1..4 : Bits(a)[k] # Bits(b)[k]})
 \* the configuration of the next Execute: different from this one's
@@ -97,7 +124,7 @@ WarmUps == {Pr("file", "f2", "trunc", "print", "lit"), Act("getline_file", "f1",
 \* what a later run does: one I/O action, or a close() (nothing of the previous run is open any more).  Where
 \* NoExec is off, process-starting actions only after an empty first run under NoExec (the change that matters
 \* for them), unless Rich = 2.
-LaterMenu == {a \in SandboxMenu({"lit"}) : (IsIO(a) \/ a.op = "close") /\ (IsExec(a) => (cfg.ne \/ Rich = 2 \/ (prev[Len(prev)].cfg.ne /\ Len(prev[Len(prev)].acts) = 1)))}
+LaterMenu == {a \in SandboxMenu({"lit"}) \cup NewPair : (IsIO(a) \/ a.op = "close") /\ (IsExec(a) => (cfg.ne \/ Rich = 2 \/ (prev[Len(prev)].cfg.ne /\ Len(prev[Len(prev)].acts) = 1)))}
 
 Choices ==
   IF Family = "sandbox" /\ prev # <<>>
@@ -107,14 +134,28 @@ Choices ==
         THEN {a \in LaterMenu : ~IsExec(a)} ELSE {})
   ELSE IF Family = "sandbox"
   THEN CASE Len(h) = 0 -> SandboxMenu({"lit", "computed"}) \cup Menu(GFiles, {"lit"}, {"printf"})   \* printf is an opcode of its own
-         [] Len(h) = 1 -> IF h[1].cls = "lit" /\ ~IsPrintf(h[1]) /\ (cfg.ne \/ Rich = 2 \/ ~IsExec(h[1])) THEN Cheap(SandboxMenu({"lit"})) ELSE {}
-         [] Len(h) = 2 -> IF IsIO(h[1]) /\ h[2].op = "close" /\ SameName(h[1], h[2])
+                          \cup NewSingles
+         [] Len(h) = 1 -> IF h[1].op = "operand" /\ h[1].name \in SkipOperands      \* every operand after one that is not a file
+                          THEN {a \in SandboxMenu({"lit"}) \cup NewSingles : a.op = "operand" /\ a.cls = "lit"}
+                          ELSE IF h[1] \in NewPair /\ (cfg.ne \/ Rich = 2 \/ ~IsExec(h[1])) THEN Cheap(SandboxMenu({"lit"}))
+                          ELSE IF h[1] \in NewSingles THEN (IF Rich = 2 /\ h[1].cls = "lit" THEN Cheap(SandboxMenu({"lit"})) ELSE {})
+                          ELSE IF h[1].cls = "lit" /\ ~IsPrintf(h[1]) /\ (cfg.ne \/ Rich = 2 \/ ~IsExec(h[1]))
+                          THEN Cheap(SandboxMenu({"lit"}) \cup NewPair) ELSE {}
+         [] Len(h) = 2 -> IF h[1].op = "operand" THEN {}
+                          ELSE IF IsIO(h[1]) /\ h[2].op = "close" /\ SameName(h[1], h[2])
                           THEN {a \in Cheap(SandboxMenu({"lit"})) : IsIO(a) /\ a.name = h[1].name} ELSE {}
          [] OTHER -> {}
   ELSE IF Family = "delivery" THEN DeliveryMenu
+  ELSE IF Family = "newline"
+  THEN (IF Len(h) = 0 THEN NewlineMenu
+        ELSE IF Len(h) = 1 /\ (Rich = 2 \/ cfg.nlmode # "smart")
+        THEN {a \in NewlineMenu : SameDest(a, h[1]) /\ (Rich = 2 \/ ShapeOf(a) \in {"plain", "mid", "crlf"})}
+             \cup (IF h[1].name \in SNames THEN {Act("close", h[1].name, "lit"), Act("fflush", h[1].name, "lit")} ELSE {})
+        ELSE IF Len(h) >= 2 /\ Rich = 2 THEN {a \in NewlineMenu : SameDest(a, h[1]) /\ ShapeOf(a) \in {"mid", "crlf"}}
+        ELSE {})
   ELSE FailureMenu
 
-TheEndings == IF Family = "sandbox" THEN {[op |-> "finish"]} ELSE Endings
+TheEndings == IF Family = "sandbox" \/ (Family = "newline" /\ Len(h) > 1 /\ Rich < 2) THEN {[op |-> "finish"]} ELSE Endings
 
 RunRec(s2, h2) == [cfg |-> CfgOut(cfg), acts |-> h2, pred |-> Prediction(s2)]
 Export(s2, h2) ==
